@@ -24,6 +24,7 @@ func init() {
 			"(R12.3) a module restored from the cache is fully re-bound: every compiledModule field assigned on the fresh-compile path is assigned on the cache-hit path or by deserialisation; (R12.4) the memory sizer's limits do not depend on the capacity flag; " +
 			"(R12.6) with a custom memory allocator every change of the buffer goes through the allocator (no buffer change outside the allocator branch unless guarded by expBuffer == nil). (R12.8) in the compiler's host-call arms, results written by the host function are never masked by the parameter types – the listener variants included, so attaching a listener does not change the values the guest receives; (R12.7) the interpreter indexes the source-offset table of a (possibly cache-shared) compiled function only under a length test of that same table, so a runtime with debug info can use an entry compiled without. NOT decided: equality of traces across the configuration lattice.",
 		Rules: []core.Rule{
+			{ID: "R12.9", Template: "T-NONINTERF", Text: "an engine shared through a CompilationCache does not apply the first runtime's features to modules of another (genuine defect found and fixed: interpreter)", Min: 1},
 			{ID: "R12.8", Template: "T-SIBLING", Text: "attaching a listener to a host function does not change what happens to its result slots (same analysis as C08 R08.10)", Min: 4},
 			{ID: "R12.7", Template: "T-CONSULT", Text: "the interpreter indexes a cached function's source-offset table only under a length test of that table", Min: 1},
 			{ID: "R12.1", Template: "T-SIBLING", Text: "identity covers every compile input (call-site agreement, every parameter hashed, per-function listener presence)", Min: 4},
@@ -34,6 +35,7 @@ func init() {
 		},
 		Run: runC12,
 		Controls: []core.Control{
+			{Name: "interpreter-engine-applies-first-runtimes-features", File: "internal/engine/interpreter/interpreter.go", Old: "newCompiler(e.enabledFeatures|api.CoreFeaturesV2, callFrameStackSize", New: "newCompiler(e.enabledFeatures, callFrameStackSize", Rule: "R12.9", Substr: "feature"},
 			{Name: "identity-ignores-debug-info", File: "internal/wasm/module.go", Old: "\tm.ID[0] = boolToByte(m.DWARFLines != nil)\n\th.Write(m.ID[:1])\n", New: "", Rule: "R12.2", Substr: "DWARFLines"},
 			{Name: "listener-arm-masks-host-results", File: "internal/engine/wazevo/call_engine.go", Old: "\t\t\t\tf.Call(ctx, callerModule, s)\n\t\t\t}()\n\t\t\t// Call Listener.After.\n\t\t\tlistener.After(ctx, callerModule, def, s[:len(def.ResultTypes())])", New: "\t\t\t\tf.Call(ctx, callerModule, s)\n\t\t\t}()\n\t\t\t// Call Listener.After.\n\t\t\tclearUpper32Bits(s, def.ParamTypes())\n\t\t\tlistener.After(ctx, callerModule, def, s[:len(def.ResultTypes())])", Rule: "R12.8", Substr: "GoModuleFunctionWithListener"},
 			{Name: "offset-table-guarded-by-instance-flag", File: "internal/engine/interpreter/interpreter.go", Old: "\t\tif parent := frame.f.parent; parent.body != nil && len(parent.offsetsInWasmBinary) > 0 {\n\t\t\tsources = parent.source.DWARFLines.Line(parent.offsetsInWasmBinary[frame.pc])", New: "\t\tif dw := f.moduleInstance.Source.DWARFLines; dw != nil && f.parent.body != nil {\n\t\t\tsources = dw.Line(f.parent.offsetsInWasmBinary[frame.pc])", Rule: "R12.7", Substr: "source-offset"},
@@ -48,6 +50,7 @@ func init() {
 }
 
 func runC12(c *core.Ctx) {
+	checkSharedEngineFeatures(c)
 	checkOffsetTableGuard(c)
 	checkSlotNormalisation(c, "", "R12.8")
 	wp := c.Pkg("internal/wasm")
